@@ -13,10 +13,11 @@ EXTENDS Naturals, Sequences, FiniteSets, TLC
 
 \* the pool has a module beside a package of the same name (d.mamba, d/), a sibling directory whose name extends another one with a
 \* character that sorts before the separator (d-x/ next to d/), two files in one directory and the same base name in two directories:
-\* orders of whole path strings and of path components differ on it
-Paths    == <<"a.mamba", "d/b.mamba", "d/e/c.mamba", "d.mamba", "d/y.mamba", "d-x/b.mamba">>
-PyPaths  == <<"a.py", "d/b.py", "d/e/c.py", "d.py", "d/y.py", "d-x/b.py">>
-SrcPaths == <<"src/a.mamba", "src/d/b.mamba", "src/d/e/c.mamba", "src/d.mamba", "src/d/y.mamba", "src/d-x/b.mamba">>
+\* orders of whole path strings and of path components differ on it; the nested file has the extension's spelling inside a directory
+\* name and inside its own name (only the LAST extension of the file name becomes .py)
+Paths    == <<"a.mamba", "d/b.mamba", "d/e.mamba.d/c.mamba.mamba", "d.mamba", "d/y.mamba", "d-x/b.mamba">>
+PyPaths  == <<"a.py", "d/b.py", "d/e.mamba.d/c.mamba.py", "d.py", "d/y.py", "d-x/b.py">>
+SrcPaths == <<"src/a.mamba", "src/d/b.mamba", "src/d/e.mamba.d/c.mamba.mamba", "src/d.mamba", "src/d/y.mamba", "src/d-x/b.mamba">>
 ParseFaults == {"lex", "syntax"}
 
 File(path, uses, fault) == [path |-> path, uses |-> uses, fault |-> fault]      \* path: index into Paths
